@@ -108,7 +108,7 @@ PENDING_REASON = "check not built yet in this session; design in DESIGN.md secti
 
 # Dimensions added in the fifth and sixth seeding rounds (DESIGN.md 8.7).
 ADDENDA = {
-    "C01": "Records may be keyed into two or three events with keys of their own; the pubkill fault holds the publication of a completed checkpoint until the job is deploying the recovery from the failure that follows; slowassign makes the AssignSplits calls of a recovery take 3 ms while the checkpoint timer fires as early as the job allows; the backlog shape uses batches of 32..64, a split of 1400..2200 records and operators that stall while a checkpoint is started.",
+    "C01": "Records may be keyed into two or three events with keys of their own; the pubkill fault holds the publication of a completed checkpoint until the job is deploying the recovery from the failure that follows; slowassign makes the AssignSplits calls of a recovery take 3 ms while the checkpoint timer fires as early as the job allows; event batches are delivered through the engine's own in-process adapter (rpc.OperatorEmbeddedClient); the backlog shape uses batches of 32..64, a split of 1400..2200 records and operators that stall while a checkpoint is started.",
     "C02": "In a third of the cases one runner goes away while its request is parked in the alignment wait (the request's context is cancelled); the others complete the pending checkpoint. A third of the runners other than the first report their source exhausted and only relay barriers afterwards.",
     "C03": "Subject keys are taken from anywhere in the adversarial pool (including keys ending in 0xFF).",
     "C04": "Records may be keyed into two or three events with keys of their own; every keyed event must be delivered exactly once.",
@@ -118,11 +118,11 @@ ADDENDA = {
     "C16": "Shares the pubkill, slowassign and backlog faults of the C01 cluster.",
     "C06": "Old databases may have been checkpointed twice, with the retention update for the newer checkpoint reaching only a drawn subset (their checkpoints files list different checkpoints). A second change of the operator count over inherited tables is explored wherever the checkpoints at hand do not put intersecting tables into one sorted level (the narrowed exclusion of the open finding).",
     "C08": "Incarnations of a restore chain write 6, 2 or no operations before they are checkpointed (chains to depth 4); a retention update may run beside a parked checkpoint save; restore chains may start from storage aged to table numbers around 1000000.",
-    "C09": "A retention update may run beside a checkpoint save that is parked at the storage; the WAL files of the checkpoints it drops must be gone when both have finished.",
+    "C09": "Neighbours may answer NeedsTable with cancelled contexts, Canceled or Unavailable statuses, deadlines, or be asked before their deployment has opened its database. A retention update may run beside a checkpoint save that is parked at the storage; the WAL files of the checkpoints it drops must be gone when both have finished.",
     "C11": "Upstream runners may report their source exhausted (SourceComplete) while others read on; they keep bounding the minimum.",
     "C12": "One case in twelve has 8..130 operators or source runners. The storage may refuse the write of a job snapshot: then no part of the publication may happen. The generator emits runs of acknowledgements that complete the pending checkpoint.",
-    "C15": "Deployment windows may carry the late acknowledgements of the checkpoint that was pending on the replaced assembly (it must not be published); a savepoint request or the checkpoint timer's callback may be overtaken by the loss of a member between its look at the job and the creation of its checkpoint (the harness parks it where it collects the member ids).",
-    "C17": "Tables are re-opened through 1..3 generations of descriptors, each of which must equal the first. TestPropLargeTable writes tables of 1000..140000 entries (around 4096, 65536 and 131072) and reads every key back from the re-opened table.",
+    "C15": "Deployment windows may carry the late acknowledgements of the checkpoint that was pending on the replaced assembly (it must not be published); a savepoint request or the checkpoint timer's callback may be overtaken by the loss of a member between its look at the job and the creation of its checkpoint (the harness parks it where it collects the member ids). The fake operators acknowledge with their own key-group range, in varying order, and every deployment must hand each operator the checkpoint parts that overlap its range.",
+    "C17": "Empty keys are passed as empty or nil slices; a table's descriptor must name its first and last key. Tables are re-opened through 1..3 generations of descriptors, each of which must equal the first. TestPropLargeTable writes tables of 1000..140000 entries (around 4096, 65536 and 131072) and reads every key back from the re-opened table.",
     "C18": "A quarter of the compaction steps run with a storage read fault in one table of the layout: a step that returns an error applies nothing, one that returns a change set is applied and checked.",
     "C19": "Zip-tree scans may be consumed lazily while their loop body overwrites existing keys. mergesort.Merge is also run over strings, integers around zero and structs (types whose zero value is a legal element).",
     "C20": "TestPropBatcherOvertaken uses the batcher from two goroutines (adder and time-out flusher); the harness timer expires inside the Add that armed it, so the flusher waits with its token while the adder flushes that batch and starts later ones; the timer has a single slot and a slow Stop, and items left in the current batch must have a time-out armed.",
